@@ -711,7 +711,7 @@ func (rm RoundingMode) round(shift, neg bool, sig uint128, exp int16, trunc int8
 							exp -= 19
 						}
 
-						for exp > minBiasedExponent && sig[1] <= 0x0002_7fff_ffff_ffff/10 {
+						for exp > minBiasedExponent && (sig[1] <= 0x0002_7fff_ffff_ffff/10 || sig == uint128{0, 0x0002_7fff_ffff_ffff/10 + 1}) {
 							sig = sig.mul64(10)
 							exp--
 						}
